@@ -8,6 +8,7 @@
 //! non-negative scores, order, top-k prefix for every k, repeat stability, answers after
 //! compaction / reload / every crash prefix of every flush, shape of the flush write sequence.
 
+mod conc;
 mod query;
 mod store;
 mod world;
@@ -108,9 +109,19 @@ fn gen_case(rng: &mut Rng, shapes: &[query::Tree]) -> Vec<String> {
     ops
 }
 
+/// schedules explored per concurrent workload at most (set from the tier)
+static CONC_CAP: std::sync::atomic::AtomicU64 = std::sync::atomic::AtomicU64::new(3000);
+
 fn run_case(ops: &[String], model: Option<&mut ModelProc>) -> CaseResult {
     let r = catch_unwind(AssertUnwindSafe(|| {
         let mut w = World::new(model);
+        if ops.len() == 1
+            && let Some(wl) = conc::Workload::parse(&ops[0])
+        {
+            // L3: one line = one workload; every interleaving at the yield points is a run
+            w.explore(&wl, CONC_CAP.load(std::sync::atomic::Ordering::Relaxed));
+            return w.res;
+        }
         w.run(ops);
         w.res
     }));
@@ -129,6 +140,53 @@ struct Totals {
     searches: u64,
     prefixes: u64,
     bits_differ: u64,
+    schedules: u64,
+}
+
+/// L3 workloads: operations on overlapping tokens, distinct ids per thread, with compaction.
+/// Every text has one distinct token (hash-map iteration order inside an operation is then
+/// immaterial); `large` setups may hold two-token documents (everything lives in bucket 0).
+fn conc_workloads(thorough: bool) -> Vec<String> {
+    let mut v: Vec<String> = Vec::new();
+    let pairs: [(&str, &str); 14] = [
+        ("", "ins 1 alpha || ins 2 alpha"),
+        ("", "ins 1 alpha || ins 2 beta"),
+        ("ins 1 alpha", "rem 1 alpha || ins 2 alpha"),
+        ("ins 1 alpha", "rem 1 alpha || ins 2 beta"),
+        ("ins 1 alpha ; ins 2 alpha", "rem 1 alpha || rem 2 alpha"),
+        ("ins 1 alpha", "purge 1 || ins 2 alpha"),
+        ("ins 1 alpha ; ins 2 beta", "purge 1 || rem 2 beta"),
+        ("ins 1 alpha ; ins 2 beta", "compact || ins 3 gamma"),
+        ("ins 1 alpha ; ins 2 beta", "compact || ins 3 alpha"),
+        ("ins 1 alpha ; ins 2 beta", "compact || rem 1 alpha"),
+        ("ins 1 alpha ; ins 2 beta", "compact || purge 2"),
+        ("", "rem 9 alpha || ins 1 alpha"),
+        ("ins 1 alpha ; ins 2 beta ; rem 2 beta", "ins 3 gamma || ins 4 beta"),
+        ("ins 1 alpha ; ins 2 beta", "rem 1 beta || ins 3 beta"),
+    ];
+    for (setup, threads) in pairs {
+        for mode in ["zero", "large"] {
+            v.push(format!("conc {mode} | {setup} | {threads}"));
+        }
+    }
+    // two-token documents (bucket 0 only): partial-text remove against an insert / a purge
+    v.push("conc large | ins 1 alpha beta | rem 1 alpha || ins 2 beta".into());
+    v.push("conc large | ins 1 alpha beta ; ins 2 beta | rem 1 beta || rem 2 beta".into());
+    if thorough {
+        for (setup, threads) in [
+            ("", "ins 1 alpha || ins 2 alpha || ins 3 beta"),
+            ("ins 1 alpha", "rem 1 alpha || ins 2 alpha || ins 3 alpha"),
+            ("ins 1 alpha ; ins 2 beta", "compact || ins 3 gamma || rem 1 alpha"),
+            ("ins 1 alpha ; ins 2 beta", "compact || purge 2 || ins 3 beta"),
+            ("ins 1 alpha ; ins 2 alpha", "rem 1 alpha || rem 2 alpha || ins 3 alpha"),
+            ("ins 1 alpha ; ins 2 beta", "purge 1 || ins 3 alpha || rem 2 beta"),
+        ] {
+            for mode in ["zero", "large"] {
+                v.push(format!("conc {mode} | {setup} | {threads}"));
+            }
+        }
+    }
+    v
 }
 
 fn absorb(report: &mut Report, tot: &mut Totals, ops: &[String], res: CaseResult, model: &mut Option<ModelProc>, driver: &Option<std::path::PathBuf>) {
@@ -137,6 +195,7 @@ fn absorb(report: &mut Report, tot: &mut Totals, ops: &[String], res: CaseResult
     tot.searches += res.searches;
     tot.prefixes += res.crash_prefixes;
     tot.bits_differ += res.score_bits_differ_between_calls;
+    tot.schedules += res.schedules;
     for h in &res.hits {
         report.hit(h);
     }
@@ -188,7 +247,8 @@ fn main() {
         "a case (one history) is non-trivial if an insert succeeded or some query returned a non-empty result; distinct = distinct op lists",
     );
     let mut model = ModelProc::from_args(&args);
-    let mut tot = Totals { searches: 0, prefixes: 0, bits_differ: 0 };
+    let mut tot = Totals { searches: 0, prefixes: 0, bits_differ: 0, schedules: 0 };
+    CONC_CAP.store(args.budget(500, 30_000), std::sync::atomic::Ordering::Relaxed);
     let shapes = all_shapes(3);
 
     if let Some(rp) = &args.replay {
@@ -233,6 +293,20 @@ fn main() {
         }
     }
 
+    // ---- L3: every interleaving at the yield points of 2 (thorough: also 3) threads
+    for line in conc_workloads(args.thorough() || args.focus.is_some()) {
+        let ops = vec![line.clone()];
+        let res = run_case(&ops, model.as_mut());
+        report.hit("conc-workload");
+        report.hit_n("conc-schedules", res.schedules);
+        report.evaluations += res.schedules.saturating_sub(1);
+        eprintln!("[conc] {} schedules: {line}", res.schedules);
+        if report.samples.len() < 8 {
+            report.sample(json!({"conc": line, "schedules": res.schedules}));
+        }
+        absorb(&mut report, &mut tot, &ops, res, &mut model, &args.driver);
+    }
+
     // ---- random histories
     let n_cases = args.budget(700, 160_000);
     for i in 0..n_cases {
@@ -250,6 +324,7 @@ fn main() {
 
     report.measured.insert("searches_checked".into(), json!(tot.searches));
     report.measured.insert("crash_prefixes_loaded".into(), json!(tot.prefixes));
+    report.measured.insert("interleavings_executed_on_real_threads".into(), json!(tot.schedules));
     report.measured.insert("topk_calls_whose_score_bits_differ_from_the_full_call".into(), json!(tot.bits_differ));
     report.measured.insert("boolean_tree_shapes_depth_le_3".into(), json!(shapes.len()));
     report.notes.push("scores are checked finite and non-negative on every returned result (measured in f32; the theorem score_nonneg_real is over the reals)".into());
